@@ -130,9 +130,9 @@ class G:
         if ty == "BOOLEAN":
             return [r.choice(["TRUE", "FALSE"])]
         if ty == "CHAR":
-            return [charlit(r.choice("abcxyzABCXYZ019 #_.,")) ]
+            return [charlit(r.choice("abcxyzABCXYZ019 #_.,\\'\n\t\"")) ]
         if ty == "STRING":
-            return [strlit("".join(r.choice("abcdeXYZ 012#.,\n\t\"") for _ in range(r.randint(0, 6))))]
+            return [strlit("".join(r.choice("abcdeXYZ 012#.,\n\t\"\\'") for _ in range(r.randint(0, 6))))]
         if ty == "DATE":
             return ["%d/%d/%d" % (r.randint(1, 28), r.randint(1, 12), r.choice([1999, 2000, 2020, 2024, 1970, r.randint(1, 9999)]))]
         if ty in self.enums:
@@ -227,7 +227,13 @@ class G:
         toks = [fn, "("]
         for i, (pn, pt, byref) in enumerate(ps):
             if i: toks.append(",")
-            if byref:
+            if byref and self.fault():
+                # something that is not a variable where a BYREF parameter needs one (or a value of another type)
+                e = self.expr(pt if self.r.random() < 0.7 else self.r.choice(self.types(prim_only=True)), 1)
+                if e is None: return None
+                toks += e if self.r.random() < 0.5 else ["("] + e + [")"]
+                self.features.add("byref_nonvar")
+            elif byref:
                 vs = [v for v in self.vars_of(pt, writable=True) if v not in self.protected]
                 if not vs: return None
                 toks += [self.r.choice(vs)]
@@ -702,7 +708,12 @@ class G:
             toks.append("(")
             for i, (n, t, byref) in enumerate(ps):
                 if i: toks.append(",")
-                if byref:
+                if byref and self.fault():
+                    e = self.expr(t if r.random() < 0.7 else r.choice(self.types(prim_only=True)), 1)
+                    if e is None: return self.assign()
+                    toks += e if r.random() < 0.5 else ["("] + e + [")"]
+                    self.features.add("byref_nonvar")
+                elif byref:
                     vs = [v for v in self.vars_of(t, writable=True) if v not in self.protected]
                     if not vs and self.loop_depth == 0:
                         vs = [self.declare(t)]
